@@ -182,7 +182,9 @@ class Site:
                 elif s[0] == "const":
                     leaves.add(s[1].split("::")[-1])
                 elif s[0] == "call":
-                    leaves.add(s[2].split("::")[-1] + "()")
+                    nm_ = s[2].split("::")[-1]
+                    if nm_ not in ("unwrap", "expect", "cloned", "copied", "as_ref", "as_mut"):
+                        leaves.add(nm_ + "()")   # Option / Result plumbing does not identify the data
         # keep only maximal paths
         ps = sorted(leaves)
         ps = [p for p in ps if not any(q != p and q.startswith(p + ".") for q in ps)]
@@ -480,6 +482,18 @@ def discharge_auto(ctx, site):
             u = ub(ctx, fa, ix)
             if lv is not None and u is not None and u < lv:
                 return "A1", "index bounded by %d below constant length %d" % (u, lv)
+            # for i in 0..v.len() { v[i] }  on a slice (BoundsCheck form of the Index idiom below)
+            s_ix, s_ln = term_sig_(ix), term_sig_(strip(ln))
+            if s_ix.startswith("some(next(") and "start: 0" in s_ix and ("end: %s" % s_ln) in s_ix:
+                return "A2", "index iterates 0..len(base)"
+            # a chunk produced by chunks_exact(_, n) / a [T; n] has exactly n elements
+            base_ = strip(ln[1]) if ln[0] == "len" else None
+            if base_ is not None and iv is not None:
+                for x_ in subterms(base_):
+                    if isinstance(x_, tuple) and len(x_) == 4 and x_[0] == "call" and x_[2].split("::")[-1] in ("chunks_exact", "chunks_exact_mut") and len(x_[3]) == 2:
+                        n_ = ev(ctx, x_[3][1])
+                        if n_ is not None and iv < n_ and term_sig_(base_).startswith("some(next("):
+                            return "A1", "constant index %d into a chunk of chunks_exact(_, %d)" % (iv, n_)
         if d == "Overflow(Sub)":
             a, b = site.ops
             av, bv = ev(ctx, a), ev(ctx, b)
@@ -655,6 +669,44 @@ def discharge_auto(ctx, site):
     return None, None
 
 
+ENCODE_INFALLIBLE = ("to_encoded_bytes!-style encoding: the buffer is sized with encoded_size of the very values it then receives; encoded_size / encode of fixed-width integers "
+                     "and fixed-size byte arrays into an exactly sized buffer cannot fail; as_array::<32> is applied to hashes, which are 32 bytes here (BLAKE2b-256 output, [u8;32] wire decoding, 32-byte stored nodes)")
+
+
+def pattern_assumption(ctx, site):
+    """Reviewed invariants that are recognised by the SHAPE of the unwrapped value rather than by a
+    site key, so that extracting the encoding into a helper or encoding fields one by one does
+    not need a new table entry.  Pattern 1: `.expect(..)` / `.unwrap()` on the Result of a
+    to_encoded_bytes!-style encoding whose every failing member is an encoded_size / encode call
+    on a fixed-width codec type (FixedWidthUint<uN>, [u8; N]) or `as_array` of a hash."""
+    from ..codec import self_type_of, classify_type
+    from ..analysis import wrap_payload
+    if site.kind != "unwrap" or site.detail not in ("expect", "unwrap") or not site.ops:
+        return None
+    fa = site.fa
+    rs = roots(site.ops[0])
+    errs = [r for r in rs if is_agg(r, "Err")]
+    oks = [r for r in rs if not is_agg(r, "Err")]
+    if not errs or not all(is_agg(r, "Ok") or (strip(r)[0] == "call" and strip(r)[2].split("::")[-1] in ("from_elem", "into_boxed_slice")) for r in oks):
+        return None
+    for e in errs:
+        src = strip(agg_field(e, "0"))
+        if src[0] == "err":
+            src = strip(src[1])
+        if src[0] != "call" or not (0 <= src[1] < len(fa.blocks)):
+            return None
+        nm = src[2].split("::")[-1]
+        if nm == "as_array":
+            continue
+        if nm in ("encoded_size", "encode") and src[2].startswith("compact_encoding::CompactEncoding"):
+            st = self_type_of(fa.blocks[src[1]].term.get("callee_full"))
+            c = classify_type(st or "?", {})
+            if c[0] in ("fixed", "fixedle"):
+                continue
+        return None
+    return ENCODE_INFALLIBLE
+
+
 def closure_of(ctx, entries):
     g = cg(ctx)
     start = []
@@ -696,6 +748,11 @@ def panic_rule(ctx, prop, rule, entries, floor=0, skip_fns=(), only_fn=None):
                 if how:
                     stats[how] += 1
                     ctx.ok(prop, rule, anchor, "%s: %s" % (how, why), [s.where()])
+                    continue
+                pat = pattern_assumption(ctx, s)
+                if pat is not None:
+                    stats["A4"] += 1
+                    ctx.ok(prop, rule, anchor, "A4 (assumed invariant, by pattern): %s" % pat, [s.where()], assumed=True)
                     continue
                 e = table.get(key)
                 if e is not None:
